@@ -801,7 +801,7 @@ package core
 //@ pred childrenNonNil() := forallp(x, j, at((*directive.Directive)(x).Children, j), imp(x != 0 && (*directive.Directive)(x).Children.off <= j
 //@     && j < (*directive.Directive)(x).Children.off + len((*directive.Directive)(x).Children), at((*directive.Directive)(x).Children, j) != nil))
 //@ func findPaste(macroName, d)
-//@   property C10
+//@   property C10,C03
 //@   attr assumesafe
 //@   requires d != nil && childrenNonNil()
 //@   axiom forallp(x, treeHeight(x), treeHeight(x) >= 0)
@@ -810,5 +810,7 @@ package core
 //@       treeHeight(at((*directive.Directive)(x).Children, j)) < treeHeight(x)))
 //@   decreases[C10,C01] treeHeight(d)
 //@   modifies nothing
+//@   ensures[C03,C10,@nameless-paste-rejected] imp(old(d.type_ == directive.Paste && !(d.namedParameters != nil && has(d.namedParameters, "Name") && d.namedParameters["Name"] != "")),
+//@       result != nil && result.File == d.keywordCoords.file && result.Index == d.keywordCoords.begin)
 //@   ensures[C10,@self-paste-rejected] imp(old(d.type_ == directive.Paste && d.namedParameters != nil && has(d.namedParameters, "Name")
 //@       && d.namedParameters["Name"] != "" && d.namedParameters["Name"] == macroName), result != nil)
